@@ -8,12 +8,12 @@ package redis_test
 // Lua interpreter) is driven through generated histories of Acquire / Release /
 // SetExpire / clock advance by several lock instances on the same key, and compared
 // after every operation with a model (holder, expiry) written from the property
-// statement.  Time is miniredis' FastForward only: nothing here reads a wall clock.
+// statement.  Time is miniredis' FastForward only; the wall clock is read only to annotate
+// notes about inconclusive cases, never by an oracle.
 
 import (
 	"errors"
 	"fmt"
-	"net"
 	"strings"
 	"sync"
 	"sync/atomic"
@@ -21,7 +21,8 @@ import (
 	"time"
 
 	"github.com/alicebob/miniredis/v2"
-	"github.com/zeromicro/go-zero/core/breaker"
+	"github.com/alicebob/miniredis/v2/server"
+	red "github.com/redis/go-redis/v9"
 	"github.com/zeromicro/go-zero/core/logx"
 	"github.com/zeromicro/go-zero/core/stores/redis"
 	"github.com/zeromicro/go-zero/internal/verifkit"
@@ -37,14 +38,34 @@ var (
 	c19Store *redis.Redis
 	c19Err   error
 	c19Seq   atomic.Int64
+	// number of EVAL / EVALSHA commands the server received (see scriptRuns)
+	c19Evals atomic.Int64
 )
 
 func c19Server(tb failer) (*miniredis.Miniredis, *redis.Redis) {
 	c19Once.Do(func() {
 		c19MR, c19Err = miniredis.Run()
-		if c19Err == nil {
-			c19Store = redis.New(c19MR.Addr())
+		if c19Err != nil {
+			return
 		}
+		c19MR.Server().SetPreHook(func(_ *server.Peer, cmd string, _ ...string) bool {
+			if cmd == "EVAL" || cmd == "EVALSHA" {
+				// VERIF_C19_STALL_AT=n (experiments only): the n-th script call is held back
+				// beyond go-redis' 3 s read timeout, which makes the client re-send it
+				if n := c19Evals.Add(1); n == c19StallAt {
+					time.Sleep(3300 * time.Millisecond)
+				}
+			}
+			return false
+		})
+		c19Store = redis.New(c19MR.Addr())
+		// load both scripts into the server once, so that from now on every
+		// Acquire/Release is exactly one EVALSHA (no NOSCRIPT + EVAL fallback)
+		// (best effort: if it fails, the first case sees a NOSCRIPT fallback and is inconclusive)
+		warm := redis.NewRedisLock(c19Store, "c19:warmup")
+		warm.SetExpire(1)
+		warm.Acquire()
+		warm.Release()
 	})
 	if c19Err != nil {
 		tb.Skipf("inconclusive: cannot start miniredis: %v", c19Err)
@@ -61,6 +82,8 @@ type failer interface {
 // VERIF_C19_API_ONLY=1 switches the key/TTL comparison off (sensitivity experiments:
 // shows what the Acquire/Release results alone detect).  Never set by check.json.
 var c19APIOnly = verifkit.EnvInt("c19_api_only", 0) == 1
+
+var c19StallAt = int64(verifkit.EnvInt("c19_stall_at", 0))
 
 func c19Lease(sec int) int64 { return int64(sec)*1000 + 500 } // "configured seconds plus 500 ms"
 
@@ -95,15 +118,17 @@ type c19World struct {
 	keys  []*c19Key
 	inst  []*c19Inst
 	log   strings.Builder
-	late  int // "A expired, B acquired, A released while B holds" events
-	concF int // concurrent acquire rounds on a free key
+	dead  bool  // case abandoned as inconclusive
+	evals int64 // server-side script executions accounted for so far
+	late  int   // "A expired, B acquired, A released while B holds" events
+	concF int   // concurrent acquire rounds on a free key
 }
 
 func c19NewWorld(f failer, st *verifkit.Stats, nOnKey []int, secs []int) *c19World {
 	mr, store := c19Server(f)
 	mr.FlushAll()
 	seq := c19Seq.Add(1)
-	w := &c19World{f: f, st: st, mr: mr}
+	w := &c19World{f: f, st: st, mr: mr, evals: c19Evals.Load()}
 	idx := 0
 	for k, n := range nOnKey {
 		kn := fmt.Sprintf("c19:%d:%c", seq, 'a'+k)
@@ -122,10 +147,43 @@ func c19NewWorld(f failer, st *verifkit.Stats, nOnKey []int, secs []int) *c19Wor
 	return w
 }
 
+// c19Abort unwinds an inconclusive case (see abort).
+type c19Abort struct{}
+
+// abort ends the case without a verdict.  rapid's Skip cannot be used inside Repeat
+// actions (the machine would go on with further actions on a model that no longer
+// follows), so the world is marked dead, the current action is unwound, every later
+// action is a no-op and the case ends as passed-but-inconclusive (counted and noted).
+func (w *c19World) abort(format string, a ...any) {
+	w.dead = true
+	w.st.Class("inconclusive:case-abandoned")
+	w.st.Note("inconclusive case: "+format+"; history: %s", append(a, w.log.String())...)
+	panic(c19Abort{})
+}
+
+// guard runs f unless the case was abandoned, and absorbs the abort unwinding.
+func (w *c19World) guard(f func()) {
+	if w.dead {
+		return
+	}
+	defer func() {
+		if r := recover(); r != nil {
+			if _, ok := r.(c19Abort); !ok {
+				panic(r)
+			}
+		}
+	}()
+	f()
+}
+
 func (w *c19World) fail(format string, a ...any) {
 	// keeps the unit's sample list non-empty even when the very first case fails
 	w.st.Sample("FAILING: " + fmt.Sprintf(format, a...) + " | " + w.log.String())
-	w.f.Fatalf("%s\n  at virtual t=%dms; history: %s", fmt.Sprintf(format, a...), w.now, w.log.String())
+	var ks []string
+	for _, k := range w.keys {
+		ks = append(ks, fmt.Sprintf("%s: present=%v pttl=%v, model holder=%d until t=%d", k.name, w.mr.Exists(k.name), w.mr.TTL(k.name), k.holder, k.expiry))
+	}
+	w.f.Fatalf("%s\n  at virtual t=%dms; history: %s\n  redis: %s", fmt.Sprintf(format, a...), w.now, w.log.String(), strings.Join(ks, "; "))
 }
 
 // infra: a transport error means the script may or may not have run, so the model
@@ -135,12 +193,34 @@ func (w *c19World) infra(op string, err error) {
 	if err == nil {
 		return
 	}
-	var ne net.Error
-	if errors.As(err, &ne) || errors.Is(err, breaker.ErrServiceUnavailable) {
-		w.st.Note("inconclusive case: %s returned transport error %v", op, err)
-		w.f.Skipf("inconclusive: %s: %v", op, err)
+	var reply red.Error // an error reply sent by the server (e.g. a script error)
+	if errors.As(err, &reply) {
+		w.fail("%s returned error %v", op, err)
 	}
-	w.fail("%s returned error %v", op, err)
+	w.abort("%s returned transport/client error %v", op, err)
+}
+
+// scriptRuns: go-redis re-sends a command whose reply did not arrive within its read
+// timeout (3 s; MaxRetries is fixed to 3 by go-zero).  The scripts are not idempotent
+// in what they report (a Release that ran twice answers 0 although it freed the key),
+// and the statement quantifies over histories and schedules, not over transport
+// faults.  So a call for which the server saw more script executions than API calls is
+// inconclusive.  This is decided by counting commands at the server, not by a clock.
+func (w *c19World) scriptRuns(op string, calls int, took time.Duration) {
+	n := c19Evals.Load() - w.evals
+	w.evals += n
+	if n != int64(calls) {
+		w.st.Class("inconclusive:transport-retry")
+		w.abort("%s: %d API call(s) but the server received %d script executions (client re-sent a command; the call took %v of wall time)",
+			op, calls, n, took.Round(time.Millisecond))
+	}
+}
+
+// quiet is called before an operation: a script execution that arrived at the server
+// while no call was in flight is a late duplicate of an earlier re-sent command.
+func (w *c19World) quiet(op string) time.Time {
+	w.scriptRuns("before "+op, 0, 0)
+	return time.Now()
 }
 
 func (w *c19World) expire(k *c19Key) {
@@ -217,9 +297,11 @@ func (w *c19World) acquire(i int) bool {
 	in := w.inst[i]
 	k := w.keys[in.key]
 	state, h := w.view(k)
+	t0 := w.quiet("Acquire")
 	got, err := in.lock.Acquire()
 	fmt.Fprintf(&w.log, " acq(%s)=%s", in.name, tf(got))
 	w.infra("Acquire", err)
+	w.scriptRuns("Acquire", 1, time.Since(t0))
 	switch state {
 	case c19Free:
 		w.st.Class("acquire:free")
@@ -263,9 +345,11 @@ func (w *c19World) release(i int) bool {
 	in := w.inst[i]
 	k := w.keys[in.key]
 	state, h := w.view(k)
+	t0 := w.quiet("Release")
 	got, err := in.lock.Release()
 	fmt.Fprintf(&w.log, " rel(%s)=%s", in.name, tf(got))
 	w.infra("Release", err)
+	w.scriptRuns("Release", 1, time.Since(t0))
 	switch state {
 	case c19Free:
 		w.st.Class("release:free-key")
@@ -362,8 +446,10 @@ func (w *c19World) concurrent(set []int) {
 			res[x], errs[x] = l.Acquire()
 		}(x, w.inst[i].lock)
 	}
+	t0 := w.quiet("concurrent Acquire")
 	close(start)
 	wg.Wait()
+	took := time.Since(t0)
 	var names, outs []string
 	winners := []int{}
 	for x, i := range set {
@@ -377,6 +463,7 @@ func (w *c19World) concurrent(set []int) {
 	for _, e := range errs {
 		w.infra("concurrent Acquire", e)
 	}
+	w.scriptRuns("concurrent Acquire", len(set), took)
 	wn := func() string {
 		var s []string
 		for _, i := range winners {
@@ -466,15 +553,13 @@ func TestVerifC19Machine(t *testing.T) {
 			return onA.Draw(t, "inst")
 		}
 		shapeLate, shapeEdge := 0, 0
-		t.Repeat(map[string]func(*rapid.T){
-			"acquire": func(t *rapid.T) { w.f = t; w.acquire(pick(t)) },
-			"release": func(t *rapid.T) { w.f = t; w.release(pick(t)) },
+		actions := map[string]func(*rapid.T){
+			"acquire": func(t *rapid.T) { w.acquire(pick(t)) },
+			"release": func(t *rapid.T) { w.release(pick(t)) },
 			"setExpire": func(t *rapid.T) {
-				w.f = t
 				w.setExpire(pick(t), rapid.IntRange(0, 3).Draw(t, "seconds"))
 			},
 			"forward": func(t *rapid.T) {
-				w.f = t
 				var ms int64
 				switch rapid.IntRange(0, 2).Draw(t, "mode") {
 				case 0:
@@ -492,7 +577,6 @@ func TestVerifC19Machine(t *testing.T) {
 				w.forward(ms)
 			},
 			"concurrent": func(t *rapid.T) {
-				w.f = t
 				var set []int
 				for i := 0; i < n0; i++ {
 					if rapid.Bool().Draw(t, "in") {
@@ -512,7 +596,6 @@ func TestVerifC19Machine(t *testing.T) {
 			},
 			// forced shape: A's lease expires, B acquires, A releases late; B must still hold
 			"shapeLateRelease": func(t *rapid.T) {
-				w.f = t
 				shapeLate++
 				a := onA.Draw(t, "A")
 				b := (a + rapid.IntRange(1, n0-1).Draw(t, "Boff")) % n0
@@ -555,7 +638,6 @@ func TestVerifC19Machine(t *testing.T) {
 			},
 			// forced shape: a competitor probes 1 ms before and 1 ms after the lease end
 			"shapeLeaseEdge": func(t *rapid.T) {
-				w.f = t
 				shapeEdge++
 				a := onA.Draw(t, "A")
 				b := (a + rapid.IntRange(1, n0-1).Draw(t, "Boff")) % n0
@@ -578,13 +660,18 @@ func TestVerifC19Machine(t *testing.T) {
 					w.fail("shape: %s could not acquire 1 ms after %s's lease ended", w.inst[b].name, w.inst[a].name)
 				}
 			},
-		})
+		}
+		for name, f := range actions {
+			f := f
+			actions[name] = func(t *rapid.T) { w.f = t; w.guard(func() { f(t) }) }
+		}
+		t.Repeat(actions)
 		st.ClassN("shape:late-release", shapeLate)
 		st.ClassN("shape:lease-edge", shapeEdge)
 		if w.concF > 0 {
 			st.Class("case:with-concurrent-acquire-on-free-key")
 		}
-		if w.late > 0 {
+		if w.late > 0 && !w.dead {
 			st.Class("case:with-late-release-after-takeover")
 			st.NonTrivial(w.log.String())
 		}
@@ -606,50 +693,54 @@ func TestVerifC19Concurrent(t *testing.T) {
 		w := c19NewWorld(t, st, []int{g + 1}, secs)
 		out := g
 		k := w.keys[0]
+		member := rapid.IntRange(0, g-1).Draw(t, "member")
+		delta := rapid.Int64Range(1, 3).Draw(t, "delta")
 		pre := rapid.SampledFrom([]string{"fresh", "released", "expired", "expired-late-released",
 			"held-by-outsider", "held-by-member"}).Draw(t, "pre")
 		fmt.Fprintf(&w.log, " pre=%s", pre)
 		st.Class("pre:" + pre)
-		switch pre {
-		case "released":
-			w.acquire(out)
-			w.release(out)
-		case "expired":
-			w.acquire(out)
-			w.forward(k.expiry - w.now + rapid.Int64Range(1, 3).Draw(t, "past"))
-		case "expired-late-released":
-			w.acquire(out)
-			w.forward(k.expiry - w.now + 1)
-			w.release(out)
-		case "held-by-outsider":
-			w.acquire(out)
-			w.forward(k.expiry - w.now - rapid.Int64Range(1, 3).Draw(t, "before"))
-		case "held-by-member":
-			w.acquire(rapid.IntRange(0, g-1).Draw(t, "member"))
-		}
-		set := make([]int, g)
-		for i := range set {
-			set[i] = i
-		}
-		free, _ := w.view(k)
-		w.concurrent(set)
-		_, winner := w.view(k)
-		if free == c19Free {
-			st.NonTrivial(fmt.Sprintf("G=%d pre=%s sec=%v", g, pre, secs[:g]))
-			// the winner really owns it: every loser's Release is refused, the winner's is honoured
-			for _, i := range set {
-				if i != winner {
-					w.release(i)
-				}
+		w.guard(func() {
+			switch pre {
+			case "released":
+				w.acquire(out)
+				w.release(out)
+			case "expired":
+				w.acquire(out)
+				w.forward(k.expiry - w.now + delta)
+			case "expired-late-released":
+				w.acquire(out)
+				w.forward(k.expiry - w.now + 1)
+				w.release(out)
+			case "held-by-outsider":
+				w.acquire(out)
+				w.forward(k.expiry - w.now - delta)
+			case "held-by-member":
+				w.acquire(member)
 			}
-			w.release(winner)
-			// and the freed key is again won by exactly one
+			set := make([]int, g)
+			for i := range set {
+				set[i] = i
+			}
+			free, _ := w.view(k)
 			w.concurrent(set)
-		} else {
-			// nobody but the holder got in; after the lease ends exactly one does
-			w.forward(k.expiry - w.now + 1)
-			w.concurrent(set)
-		}
+			_, winner := w.view(k)
+			if free == c19Free {
+				st.NonTrivial(fmt.Sprintf("G=%d pre=%s sec=%v", g, pre, secs[:g]))
+				// the winner really owns it: every loser's Release is refused, the winner's is honoured
+				for _, i := range set {
+					if i != winner {
+						w.release(i)
+					}
+				}
+				w.release(winner)
+				// and the freed key is again won by exactly one
+				w.concurrent(set)
+			} else {
+				// nobody but the holder got in; after the lease ends exactly one does
+				w.forward(k.expiry - w.now + 1)
+				w.concurrent(set)
+			}
+		})
 	})
 }
 
@@ -665,21 +756,26 @@ func TestVerifC19ScriptedLateRelease(t *testing.T) {
 		st.Eval()
 		w := c19NewWorld(t, st, []int{3}, []int{sec, 2, 1})
 		const a, b, c = 0, 1, 2
-		w.acquire(a) // true
-		w.acquire(b) // false: a holds
-		w.forward(c19Lease(w.inst[a].sec) - 1)
-		w.acquire(b)               // false: 1 ms of lease left
-		w.release(b)               // false, a unaffected
-		w.forward(2)               // a expired
-		w.acquire(b)               // true
-		w.release(a)               // false: late release
-		w.acquire(c)               // false: b still holds
-		w.acquire(b)               // true: refresh
-		w.forward(c19Lease(2) - 1) // counted from the refresh
-		w.acquire(c)               // false
-		w.release(b)               // true
-		w.release(b)               // false: already released
-		w.acquire(c)               // true
+		w.guard(func() {
+			w.acquire(a) // true
+			w.acquire(b) // false: a holds
+			w.forward(c19Lease(w.inst[a].sec) - 1)
+			w.acquire(b)               // false: 1 ms of lease left
+			w.release(b)               // false, a unaffected
+			w.forward(2)               // a expired
+			w.acquire(b)               // true
+			w.release(a)               // false: late release
+			w.acquire(c)               // false: b still holds
+			w.acquire(b)               // true: refresh
+			w.forward(c19Lease(2) - 1) // counted from the refresh
+			w.acquire(c)               // false
+			w.release(b)               // true
+			w.release(b)               // false: already released
+			w.acquire(c)               // true
+		})
+		if w.dead {
+			continue
+		}
 		if w.late != 1 {
 			t.Fatalf("scripted history: late release not recognised; %s", w.log.String())
 		}
